@@ -298,7 +298,9 @@ def t9(F, rep):
             "%d decisions" % n if not extra else "decisions outside the enumerated set: %s" % extra[:3])
 
 
-_VALID_DECISIONS = [r"^is_empty\(var\(code_lengths\)\)$", r"^(Ge|Gt)\((cast\()?var\(length\)\)?, K1[56]\)$", r"^(Lt|Le)\(var\(internal_nodes\), K-?[01]\)$"]
+_VALID_DECISIONS = [r"^is_empty\(var\(code_lengths\)\)$", r"^(Ge|Gt)\((cast\()?var\(length\)\)?, K1[56]\)$", r"^(Lt|Le)\(var\(internal_nodes\), K-?[01]\)$",
+                    # the over-subscription test written before the subtraction instead of after it
+                    r"^(Gt|Lt)\((var\(length_count\)\[var\(i\)\]|var\(internal_nodes\)), (var\(length_count\)\[var\(i\)\]|var\(internal_nodes\))\)$"]
 
 
 def t7(F, rep):
